@@ -10,6 +10,7 @@ import (
 
 	"github.com/ipfs/boxo/internal/verifrt"
 	mdag "github.com/ipfs/boxo/ipld/merkledag"
+	ft "github.com/ipfs/boxo/ipld/unixfs"
 	pb "github.com/ipfs/boxo/ipld/unixfs/pb"
 	cid "github.com/ipfs/go-cid"
 	ipld "github.com/ipfs/go-ipld-format"
@@ -334,7 +335,7 @@ func (f *zzFile) writeAt(b []byte, off int) {
 	}
 }
 
-func zzSetup(n0 int, fillMode int, prefix cid.Prefix, rawLeaves bool, chunk int64, width int) (*DagModifier, *zzDag, *zzFile) {
+func zzSetup(shape, n0 int, fillMode int, prefix cid.Prefix, rawLeaves bool, chunk int64, width int) (*DagModifier, *zzDag, *zzFile) {
 	var data []byte
 	switch fillMode {
 	case 0: // distinct concrete bytes
@@ -347,7 +348,23 @@ func zzSetup(n0 int, fillMode int, prefix cid.Prefix, rawLeaves bool, chunk int6
 		data = verifrt.NondetBytes("init", n0)
 	}
 	ds := &zzDag{}
-	nd := zzBuildFile(ds, data, chunk, width, prefix, rawLeaves)
+	var nd ipld.Node
+	switch shape {
+	case 1: // a single dag-pb node holding the bytes inline (what a one-chunk import with protobuf leaves gives)
+		pn := mdag.NodeWithData(ft.FilePBData(data, uint64(len(data))))
+		pn.SetCidBuilder(prefix)
+		nd = pn
+		ds.Add(context.Background(), nd)
+	case 2: // a single raw node (one-chunk import with raw leaves)
+		rn, err := mdag.NewRawNodeWPrefix(data, cid.Prefix{Version: 1, Codec: cid.Raw, MhType: prefix.MhType, MhLength: prefix.MhLength})
+		if err != nil {
+			panic(err)
+		}
+		nd = rn
+		ds.Add(context.Background(), nd)
+	default:
+		nd = zzBuildFile(ds, data, chunk, width, prefix, rawLeaves)
+	}
 	dm, err := NewDagModifier(context.Background(), nd, ds, zzSplitter(chunk))
 	if err != nil {
 		panic(err)
@@ -410,6 +427,9 @@ func HarnessC10OpsDeep() { zzOps() }
 // HarnessC10OpsSym: the same with symbolic file and write bytes (hash of symbolic input = uninterpreted function).
 func HarnessC10OpsSym() { zzOps() }
 
+// HarnessC10OpsShapes: the same on single-node starting files.
+func HarnessC10OpsShapes() { zzOps() }
+
 func zzOps() {
 	zzIntern = nil
 	zzK.on = false
@@ -427,7 +447,12 @@ func zzOps() {
 	if cfg == 1 {
 		prefix, raw = mdag.V1CidPrefix(), true
 	}
-	dm, ds, f := zzSetup(n0, fillMode, prefix, raw, chunk, width)
+	// starting file: 0 trickle DAG, 1 single dag-pb node with inline data, 2 single raw node (raw-leaf configuration only)
+	shape := verifrt.NondetRange("shape", verifrt.Param("SHAPELO", 0), verifrt.Param("SHAPEHI", 0))
+	if shape == 2 && !raw {
+		verifrt.Assume(false)
+	}
+	dm, ds, f := zzSetup(shape, n0, fillMode, prefix, raw, chunk, width)
 
 	// Assertion ids carry a suffix once a Write has been issued at a position that was established by Read
 	// (and not by Seek/Write/WriteAt since): that failure class is kept apart from all others.
